@@ -1291,19 +1291,20 @@ var corrOwn = map[string][]string{
 	"gcn3/flat/18": {"H_flat_load 4 LdU16"}, "cdna3/flat/18": {"H_flat_load 2 LdU16"},
 	"gcn3/flat/20": {"H_flat_load 4 LdRaw"}, "cdna3/flat/20": {"H_flat_load 4 LdRaw"},
 	"gcn3/flat/21": {"H_flat_load 8 LdRaw"}, "cdna3/flat/21": {"H_flat_load 8 LdRaw"},
+	"gcn3/flat/22": {"H_flat_load 12 LdRaw"}, "cdna3/flat/22": {"H_flat_load 12 LdRaw"},
 	"gcn3/flat/23": {"H_flat_load 16 LdRaw"}, "cdna3/flat/23": {"H_flat_load 16 LdRaw"},
 	"gcn3/flat/28": {"H_flat_store 4"}, "cdna3/flat/28": {"H_flat_store 4"},
 	"gcn3/flat/29": {"H_flat_store 8"}, "cdna3/flat/29": {"H_flat_store 8"},
 	"gcn3/flat/30": {"H_flat_store 12"}, "cdna3/flat/30": {"H_flat_store 12"},
 	"gcn3/flat/31": {"H_flat_store 16"}, "cdna3/flat/31": {"H_flat_store 16"},
-	// DS (ds_read_b64 ignores its offset field in both ALUs)
+	// DS
 	"gcn3/ds/13": {"H_ds_write 4"}, "cdna3/ds/13": {"H_ds_write 4"},
 	"gcn3/ds/14": {"H_ds_write2 4"}, "cdna3/ds/14": {"H_ds_write2 4"},
 	"gcn3/ds/30": {"H_ds_write 1"}, "cdna3/ds/30": {"H_ds_write 1"},
 	"gcn3/ds/54": {"H_ds_read 4 true"}, "cdna3/ds/54": {"H_ds_read 4 true"},
 	"gcn3/ds/55": {"H_ds_read2 4"}, "cdna3/ds/55": {"H_ds_read2 4"},
 	"gcn3/ds/78": {"H_ds_write2 8"}, "cdna3/ds/78": {"H_ds_write2 8"},
-	"gcn3/ds/118": {"H_ds_read 8 false"}, "cdna3/ds/118": {"H_ds_read 8 false"},
+	"gcn3/ds/118": {"H_ds_read 8 true"}, "cdna3/ds/118": {"H_ds_read 8 true"},
 	"gcn3/ds/119": {"H_ds_read2 8"}, "cdna3/ds/119": {"H_ds_read2 8"},
 	"cdna3/ds/223": {"H_ds_write 16"}, "cdna3/ds/255": {"H_ds_read 16 true"},
 }
@@ -1314,12 +1315,12 @@ var corrOwn = map[string][]string{
 var corrV = map[string][]int{
 	"gcn3/vop2":  {0, 6, 8, 12, 13, 14, 15, 16, 17, 18, 19, 20, 21, 25, 52, 26, 53, 27, 54, 28, 29, 30},
 	"cdna3/vop2": {0, 6, 8, 12, 13, 14, 15, 16, 17, 18, 19, 20, 21, 25, 52, 26, 53, 27, 54, 28, 29, 30},
-	"gcn3/vop1":  {1, 43, 44}, "cdna3/vop1": {1, 43, 44, 45},
+	"gcn3/vop1":  {1, 43, 44, 45}, "cdna3/vop1": {1, 43, 44, 45},
 	"gcn3/vopc":  {193, 195, 196, 197, 198, 201, 202, 203, 204, 205, 206, 232, 233, 234, 235, 236, 237, 238, 239},
-	"cdna3/vopc": {193, 195, 196, 197, 198, 201, 202, 203, 204, 205, 206, 232, 233, 234, 235, 236, 237, 238, 239},
-	"gcn3/vop3a": {193, 195, 196, 198, 201, 202, 203, 204, 205, 206, 233, 256, 450, 451, 456, 457, 465, 466, 468, 469, 471, 472,
+	"cdna3/vopc": {164, 193, 195, 196, 197, 198, 201, 202, 203, 204, 205, 206, 232, 233, 234, 235, 236, 237, 238, 239},
+	"gcn3/vop3a": {193, 195, 196, 198, 201, 202, 203, 204, 205, 206, 233, 256, 450, 451, 456, 457, 462, 465, 466, 468, 469, 471, 472,
 		488, 511, 520, 645, 646, 655, 657},
-	"cdna3/vop3a": {193, 195, 196, 198, 201, 202, 203, 204, 205, 206, 233, 256, 450, 451, 456, 457, 465, 466, 468, 469, 471, 472,
+	"cdna3/vop3a": {193, 195, 196, 198, 201, 202, 203, 204, 205, 206, 233, 256, 276, 450, 451, 456, 457, 462, 465, 466, 468, 469, 471, 472,
 		488, 509, 510, 511, 512, 520, 645, 646, 655, 657},
 	"gcn3/vop3b": {281, 282, 283, 284, 285, 286}, "cdna3/vop3b": {281, 282, 283, 284, 285, 286},
 }
